@@ -9,7 +9,8 @@
 (* is enough to state the history properties checked on the model.            *)
 (***************************************************************************)
 EXTENDS Naturals, Integers, Sequences, FiniteSets, TLC, Json
-CONSTANTS Fonts, SizeIdx, Classes, MaxLen, Units, DpiIdx, BadKinds, Modes
+CONSTANTS Fonts, SizeIdx, Classes, MaxLen, Units, DpiIdx, BadKinds, Modes,
+          MinHomog     \* a homogeneous text has at least this many units before it may end (simulation ends a text at a random step)
 VARIABLES h, phase
 vars == <<h, phase>>
 H0 == [font |-> 1, size |-> 1, txt |-> <<>>, unit |-> "in", dpi |-> 1, bad |-> "none", mode |-> "mixed"]
@@ -23,12 +24,16 @@ AppendChar == /\ phase = "append" /\ Len(h.txt) < MaxLen
                                        ELSE IF h.mode = "mixed" THEN TRUE ELSE c \in {h.txt[1], "rep"}
                                     /\ h' = [h EXCEPT !.txt = Append(@, c)]
               /\ UNCHANGED phase
-AppendTail == /\ phase = "append" /\ h.mode = "homog" /\ Len(h.txt) >= 1 /\ Len(h.txt) <= MaxLen
+MayEnd == h.mode = "mixed" \/ Len(h.txt) >= MinHomog \/ Len(h.txt) >= MaxLen
+AppendTail == /\ phase = "append" /\ h.mode = "homog" /\ Len(h.txt) >= 1 /\ Len(h.txt) <= MaxLen /\ MayEnd
         /\ \E c \in Classes \ {"rep"} : h' = [h EXCEPT !.txt = Append(@, c)]
         /\ phase' = "tail"
-Measure == /\ phase \in {"append", "tail"} /\ \E u \in Units, dd \in DpiIdx : h' = [h EXCEPT !.unit = u, !.dpi = dd] /\ phase' = "done"
+\* the text ends (one step, so that a simulated history ends with probability 1 / (number of classes + 1) per step), then
+\* unit and dpi are chosen
+Stop == /\ phase \in {"append", "tail"} /\ (phase = "tail" \/ MayEnd) /\ phase' = "stop" /\ UNCHANGED h
+Measure == /\ phase = "stop" /\ \E u \in Units, dd \in DpiIdx : h' = [h EXCEPT !.unit = u, !.dpi = dd] /\ phase' = "done"
 Reject == /\ phase = "append" /\ Len(h.txt) <= 1 /\ \E b \in BadKinds : h' = [h EXCEPT !.bad = b] /\ phase' = "done"
-Next == Start \/ AppendChar \/ AppendTail \/ Measure \/ Reject
+Next == Start \/ AppendChar \/ AppendTail \/ Stop \/ Measure \/ Reject
 Spec == Init /\ [][Next]_vars
 AppendOnly == [][phase = "append" /\ phase' \in {"append", "tail"} => (Len(h'.txt) = Len(h.txt) + 1 /\ SubSeq(h'.txt, 1, Len(h.txt)) = h.txt)]_vars
 Emit == phase = "done" => PrintT(ToJson(h))
